@@ -35,7 +35,7 @@ Definition abs_res (p : mprop) (r : dres) : option prop :=
   match r with DOk p' => Some (abs_prop p') | DUnchanged => Some (abs_prop p) | DReject => None end.
 
 (* well-formed stored properties and descriptors: what toPropertyDescriptor produces and what
-   objectDefineOwnProperty stores outside the acc-to-data defect *)
+   objectDefineOwnProperty stores (C07_mode_reachable) *)
 Definition wf_prop (p : mprop) : Prop :=
   valid (sm p) /\ match sp p with SGetSet _ _ => wdig (sm p) = 2%N | SVal _ => True end.
 Definition wf_desc (d : mdesc) : Prop :=
@@ -44,18 +44,6 @@ Definition wf_desc (d : mdesc) : Prop :=
                   | DGetSet _ _ => wdig (dm d) = 2%N
                   | _ => True
                   end.
-
-(* the two defect classes of a single redefinition *)
-Definition loses_writable (p : mprop) (d : mdesc) : bool :=
-  match sp p with
-  | SVal _ => d_isGeneric d && writable (sm p)
-  | _ => false
-  end.
-Definition acc_to_data_no_value (p : mprop) (d : mdesc) : bool :=
-  match sp p, dp d with
-  | SGetSet _ _, DNone => writeSet (dm d)
-  | _, _ => false
-  end.
 
 Lemma valid_b : forall m, existsb (N.eqb m) valid_modes = true -> valid m.
 Proof.
@@ -88,36 +76,33 @@ Opaque val_eqb ogs_eqb.
 
 Lemma define_existing_refines_data : forall v m dpv dmode,
   valid m -> wf_desc (mkMD dpv dmode) ->
-  loses_writable (mkMP (SVal v) m) (mkMD dpv dmode) = false ->
-  abs_res (mkMP (SVal v) m) (m_define_existing nofix (mkMP (SVal v) m) (mkMD dpv dmode))
+  abs_res (mkMP (SVal v) m) (m_define_existing (mkMP (SVal v) m) (mkMD dpv dmode))
   = define_existing (abs_prop (mkMP (SVal v) m)) (abs_desc (mkMD dpv dmode)).
 Proof.
-  intros v m dpv dmode Hm [Hd Hshape] G.
+  intros v m dpv dmode Hm [Hd Hshape].
   cbn [dm dp] in Hd, Hshape.
   split_valid Hm; subst m; split_valid Hd; subst dmode;
     (destruct dpv as [|v'|g s];
      [ | | destruct g as [| |fg]; destruct s as [| |fs]; try contradiction;
            try (cbv in Hshape; discriminate) ]);
-    cbv in G; try discriminate; cbv;
+    cbv;
     try reflexivity;
     try (destruct (val_eqb v v'); reflexivity).
 Qed.
 
-
 Lemma define_existing_refines_acc : forall g0 s0 m dpv dmode,
   wf_prop (mkMP (SGetSet g0 s0) m) -> wf_desc (mkMD dpv dmode) ->
-  acc_to_data_no_value (mkMP (SGetSet g0 s0) m) (mkMD dpv dmode) = false ->
-  abs_res (mkMP (SGetSet g0 s0) m) (m_define_existing nofix (mkMP (SGetSet g0 s0) m) (mkMD dpv dmode))
+  abs_res (mkMP (SGetSet g0 s0) m) (m_define_existing (mkMP (SGetSet g0 s0) m) (mkMD dpv dmode))
   = define_existing (abs_prop (mkMP (SGetSet g0 s0) m)) (abs_desc (mkMD dpv dmode)).
 Proof.
-  intros g0 s0 m dpv dmode [Hm Hw] [Hd Hshape] G.
+  intros g0 s0 m dpv dmode [Hm Hw] [Hd Hshape].
   cbn [dm dp sm sp] in Hm, Hw, Hd, Hshape.
   split_valid Hm; subst m; try (cbv in Hw; discriminate);
   split_valid Hd; subst dmode;
     (destruct dpv as [|v'|g s];
      [ | | destruct g as [| |fg]; destruct s as [| |fs]; try contradiction;
            try (cbv in Hshape; discriminate) ]);
-    cbv in G; try discriminate; cbv;
+    cbv;
     try reflexivity;
     repeat match goal with
            | |- context [ogs_eqb ?a ?b] => destruct (ogs_eqb a b)
@@ -127,12 +112,13 @@ Qed.
 
 Transparent val_eqb ogs_eqb.
 
+(* objectDefineOwnProperty on an existing property is 8.12.9 steps 5-13: every stored property,
+   every descriptor, no exception *)
 Theorem define_existing_refines : forall p d,
   wf_prop p -> wf_desc d ->
-  loses_writable p d = false -> acc_to_data_no_value p d = false ->
-  abs_res p (m_define_existing nofix p d) = define_existing (abs_prop p) (abs_desc d).
+  abs_res p (m_define_existing p d) = define_existing (abs_prop p) (abs_desc d).
 Proof.
-  intros [[v|g0 s0] m] [dpv dmode] Hp Hd G1 G2.
+  intros [[v|g0 s0] m] [dpv dmode] Hp Hd.
   - apply define_existing_refines_data; auto. exact (proj1 Hp).
   - apply define_existing_refines_acc; auto.
 Qed.
@@ -146,74 +132,3 @@ Proof.
      [ | | destruct g as [| |fg]; destruct s as [| |fs]; try contradiction;
            try (cbv in Hshape; discriminate) ]); reflexivity.
 Qed.
-
-(* the stored property stays well-formed: the modes reachable from the initial state *)
-Opaque val_eqb ogs_eqb.
-Theorem define_existing_wf : forall p d p',
-  wf_prop p -> wf_desc d -> acc_to_data_no_value p d = false ->
-  m_define_existing nofix p d = DOk p' -> wf_prop p'.
-Proof.
-  intros [[v|g0 s0] m] [dpv dmode] p' [Hm Hw] [Hd Hshape] G H;
-  cbn [dm dp sm sp] in Hm, Hw, Hd, Hshape.
-  - split_valid Hm; subst m; split_valid Hd; subst dmode;
-    (destruct dpv as [|v'|g s];
-     [ | | destruct g as [| |fg]; destruct s as [| |fs]; try contradiction;
-           try (cbv in Hshape; discriminate) ]);
-    cbv in H; try discriminate;
-    try (destruct (val_eqb v v'); try discriminate);
-    inversion H; subst; (split; [ apply valid_b; reflexivity | cbv; try reflexivity; exact I ]).
-  - split_valid Hm; subst m; try (cbv in Hw; discriminate);
-    split_valid Hd; subst dmode;
-    (destruct dpv as [|v'|g s];
-     [ | | destruct g as [| |fg]; destruct s as [| |fs]; try contradiction;
-           try (cbv in Hshape; discriminate) ]);
-    cbv in G; try discriminate;
-    cbv in H; try discriminate;
-    repeat match type of H with
-           | context [match ?x with _ => _ end] => destruct x
-           end; try discriminate;
-    inversion H; subst; (split; [ apply valid_b; reflexivity | cbv; try reflexivity; exact I ]).
-Qed.
-
-Transparent val_eqb ogs_eqb.
-
-Theorem define_new_wf : forall d, wf_desc d -> wf_prop (m_define_new d).
-Proof.
-  intros [dpv dmode] [Hd Hshape]. cbn [dm dp] in Hd, Hshape.
-  split_valid Hd; subst dmode;
-    (destruct dpv as [|v'|g s];
-     [ | | destruct g as [| |fg]; destruct s as [| |fs]; try contradiction;
-           try (cbv in Hshape; discriminate) ]);
-    (split; [ apply valid_b; reflexivity | cbv; try reflexivity; exact I ]).
-Qed.
-
-(* ---------- the defects, as refutations with witnesses ---------- *)
-Definition data_111 (v : val) : mprop := mkMP (SVal v) 73%N.                 (* {value:v, w e c all true} *)
-
-Lemma generic_writable_refuted :
-  exists p d, wf_prop p /\ wf_desc d /\
-    abs_res p (m_define_existing nofix p d) <> define_existing (abs_prop p) (abs_desc d).
-Proof.
-  exists (data_111 (VNum 1)), (mkMD DNone 130%N).                            (* {enumerable:false} = 0o202 *)
-  split; [ split; [ apply valid_b; reflexivity | exact I ] | split; [ split; [ apply valid_b; reflexivity | exact I ] | ] ].
-  vm_compute. discriminate.
-Qed.
-
-Lemma accessor_to_data_no_value_refuted :
-  exists p d, wf_prop p /\ wf_desc d /\ m_define_existing nofix p d = DOk (mkMP (SGetSet (Some 0) None) 65%N)
-    /\ m_obs_desc nofix (Some (mkMP (SGetSet (Some 0) None) 65%N)) = None
-    /\ define_existing (abs_prop p) (abs_desc d) = Some (PData VUndef true false true).
-Proof.
-  exists (mkMP (SGetSet (Some 0) None) 129%N), (mkMD DNone 82%N).             (* 0o201; {writable:true} = 0o122 *)
-  split; [ split; [ apply valid_b; reflexivity | reflexivity ] | split; [ split; [ apply valid_b; reflexivity | exact I ] | ] ].
-  vm_compute. auto.
-Qed.
-
-Lemma get_undefined_pair_refuted :
-  exists r d, to_mdesc r = Some d /\
-    m_obs_desc nofix (Some (m_define_new d)) <> Some (obs_desc (Some (define_new (abs_desc d)))).
-Proof.
-  exists (mkR None None GUndef GAbsent None None). eexists. split; [ reflexivity | ].
-  vm_compute. discriminate.
-Qed.
-
